@@ -75,6 +75,18 @@ pub struct ClipScene<A> {
     pub tris: Vec<[usize; 3]>,
 }
 
+thread_local! {
+    /// When set, render_clip goes through `Batch::render` instead of the free
+    /// function `render` (same inputs; the two must be indistinguishable).
+    static BATCH_DOOR: std::cell::Cell<bool> = const { std::cell::Cell::new(false) };
+}
+
+/// Selects the entry point render_clip uses on this thread; returns the
+/// previous choice.
+pub fn set_batch_door(on: bool) -> bool {
+    BATCH_DOOR.with(|d| d.replace(on))
+}
+
 /// Renders a clip-space scene with a pass-through vertex shader.
 pub fn render_clip<A, F>(sc: &ClipScene<A>, tris: &[[usize; 3]], frag: F, ctx: &Context, to_screen: Mat4x4<NdcToScreen>, cv: &mut Canvas, tk: Tk) -> Result<(), String>
 where
@@ -85,6 +97,29 @@ where
     let tris: Vec<Tri<usize>> = tris.iter().map(|t| Tri(*t)).collect();
     let shader = Shader::new(|v: Vertex<ClipVec, A>, _: ()| v, frag);
     let (ox, oy, w, h) = cv.win;
+    if BATCH_DOOR.with(|d| d.get()) {
+        use re::render::batch::Batch;
+        return catch(|| match tk {
+            Tk::FbOwned => {
+                let mut fb = Framebuf { color_buf: &mut cv.col, depth_buf: &mut cv.dep };
+                Batch::new().faces(&tris).vertices(&verts).uniform(()).shader(shader).viewport(to_screen).target(&mut fb).context(ctx).render();
+            }
+            Tk::FbWindow => {
+                let mut fb = Framebuf {
+                    color_buf: cv.col.slice_mut((ox..ox + w, oy..oy + h)),
+                    depth_buf: cv.dep.slice_mut((ox..ox + w, oy..oy + h)),
+                };
+                Batch::new().faces(&tris).vertices(&verts).uniform(()).shader(shader).viewport(to_screen).target(&mut fb).context(ctx).render();
+            }
+            Tk::ColOwned => {
+                Batch::new().faces(&tris).vertices(&verts).uniform(()).shader(shader).viewport(to_screen).target(&mut cv.col).context(ctx).render();
+            }
+            Tk::ColWindow => {
+                let mut t = cv.col.slice_mut((ox..ox + w, oy..oy + h));
+                Batch::new().faces(&tris).vertices(&verts).uniform(()).shader(shader).viewport(to_screen).target(&mut t).context(ctx).render();
+            }
+        });
+    }
     catch(|| match tk {
         Tk::FbOwned => {
             let mut fb = Framebuf { color_buf: &mut cv.col, depth_buf: &mut cv.dep };
